@@ -132,7 +132,8 @@ Record I (x : option nat) (F : list nat) (m : mst) (s : state) : Prop := mkI {
   I_T : forall c, share_of s c = false -> 0 < cnt (LT s) c -> Tv m s c;
   I_U : forall c ci cn, nth_error (m_conns m) c = Some ci -> get_conn s c = Some cn -> ci_upgraded ci = true -> c_open cn = false;
   I_HR : forall r ri c, nth_error (m_reqs m) r = Some ri -> ri_stat ri = SHeld c ->
-           x <> Some r /\ exists t f p, get_req s r = Some (RHolding (c, t) f p)
+           x <> Some r /\ exists t f p, get_req s r = Some (RHolding (c, t) f p);
+  I_X : forall r, x = Some r -> r < List.length (reqs s)
 }.
 
 (* what soft events may do to the tracker *)
@@ -243,7 +244,7 @@ Qed.
 
 Lemma I_msoft x F m m' s : msoft m m' -> I x F m s -> I x F m' s.
 Proof.
-  intros Hm [L S Li A H T U HR]. constructor; auto.
+  intros Hm [L S Li A H T U HR X]. constructor; auto.
   - rewrite (ms_len _ _ Hm). exact L.
   - intros c ci' cn H1 H2. destruct (msoft_bwd _ _ _ _ Hm H1) as (ci & G1 & G2 & _). rewrite G2. eauto.
   - intros c Hs Hp. eapply Av_msoft; eauto.
@@ -254,7 +255,7 @@ Qed.
 
 Lemma I_F_mono x F F' m s : (forall c, cnt F' c <= cnt F c) -> I x F m s -> I x F' m s.
 Proof.
-  intros HF [L S Li A H T U HR]. constructor; auto.
+  intros HF [L S Li A H T U HR X]. constructor; auto.
   - intros c Hs. specialize (Li c Hs). specialize (HF c). lia.
   - intros c Hs Hp. apply A; auto. specialize (HF c). lia.
 Qed.
@@ -304,7 +305,8 @@ Record trans (x : option nat) (R A B : list nat) (s s' : state) : Prop := mkT {
   t_H : forall c, share_of s c = false -> cnt (LH x s') c <= cnt (LH x s) c;
   t_T : forall c, share_of s c = false -> cnt (LT s') c <= cnt (LT s) c + cnt B c;
   t_req : forall r q, x <> Some r -> get_req s r = Some q -> exists q', get_req s' r = Some q' /\ rkind q q';
-  t_out : exists es, out s' = es ++ out s /\ Forall soft es
+  t_out : exists es, out s' = es ++ out s /\ Forall soft es;
+  t_rlen : List.length (reqs s') = List.length (reqs s)
 }.
 
 Lemma Av_cle m s s' c : Forall2 cle (conns s) (conns s') -> Av m s c -> Av m s' c.
@@ -321,7 +323,7 @@ Qed.
 Lemma I_trans_state x R A B F m s s' :
   I x (A ++ B ++ F) m s -> trans x R A B s s' -> I x (R ++ F) m s'.
 Proof.
-  intros [L S Li IA IH IT U HR] [TC TA TH TT TR TO].
+  intros [L S Li IA IH IT U HR X] [TC TA TH TT TR TO TL].
   assert (Hsh : forall c, share_of s' c = false -> share_of s c = false)
     by (intros c; rewrite (share_of_F2 s s' c TC); auto).
   constructor.
@@ -340,6 +342,7 @@ Proof.
   - intros c ci cn' H1 H2 H3. destruct (F2_bwd _ _ _ _ TC H2) as (cn & G1 & (_ & _ & G2)).
     specialize (U c ci cn H1 G1 H3). destruct (c_open cn') eqn:E; [|reflexivity]. rewrite G2 in U by reflexivity. discriminate.
   - intros r ri c H1 H2. destruct (HR r ri c H1 H2) as (Hx & t & f & p & G). split; [exact Hx|]. destruct (TR r _ Hx G) as (q' & G1 & (f' & pl' & ->)). eauto.
+  - intros r Hr. rewrite TL. auto.
 Qed.
 
 Definition G (m0 : mst) (x : option nat) (F : list nat) (s : state) : Prop :=
@@ -360,7 +363,7 @@ Proof. intros H [A B]. split; [exact A|]. eapply I_F_mono; eauto. Qed.
 Lemma trans_comp x R1 A1 B1 R2 A2 B2 s s' s'' :
   trans x R1 A1 B1 s s' -> trans x R2 A2 B2 s' s'' -> trans x (R1 ++ R2) (A1 ++ A2) (B1 ++ B2) s s''.
 Proof.
-  intros [C1 TA1 TH1 TT1 TR1 (es1 & O1 & S1)] [C2 TA2 TH2 TT2 TR2 (es2 & O2 & S2)].
+  intros [C1 TA1 TH1 TT1 TR1 (es1 & O1 & S1) L1] [C2 TA2 TH2 TT2 TR2 (es2 & O2 & S2) L2].
   assert (Hsh : forall c, share_of s c = false -> share_of s' c = false)
     by (intros c; rewrite (share_of_F2 s s' c C1); auto).
   constructor.
@@ -371,13 +374,14 @@ Proof.
   - intros r q Hx Hq. destruct (TR1 r q Hx Hq) as (q1 & G1 & K1). destruct (TR2 r q1 Hx G1) as (q2 & G2 & K2).
     exists q2. split; [exact G2|]. eapply rkind_trans; eauto.
   - exists (es2 ++ es1). split; [rewrite O2, O1, app_assoc; reflexivity|]. apply Forall_app. auto.
+  - congruence.
 Qed.
 
 Lemma trans_weak x R A B R' A' B' s s' :
   (forall c, cnt R' c <= cnt R c) -> (forall c, cnt A c <= cnt A' c) -> (forall c, cnt B c <= cnt B' c) ->
   trans x R A B s s' -> trans x R' A' B' s s'.
 Proof.
-  intros HR HA HB [C TA TH TT TR TO]. constructor; auto.
+  intros HR HA HB [C TA TH TT TR TO TL]. constructor; auto.
   - intros c Hs. specialize (TA c Hs). specialize (HR c). specialize (HA c). lia.
   - intros c Hs. specialize (TT c Hs). specialize (HB c). lia.
 Qed.
@@ -412,6 +416,7 @@ Proof.
   - intros c _. unfold LH, reqs_x. rewrite Hr. lia.
   - intros c _. unfold LT. rewrite Hk. lia.
   - intros r q _ H. exists q. unfold get_req in *. rewrite Hr. split; [exact H|apply rkind_refl].
+  - rewrite Hr. reflexivity.
 Qed.
 
 Lemma out_same s s' : out s' = out s -> exists es, out s' = es ++ out s /\ Forall soft es.
@@ -421,7 +426,7 @@ Proof. intros H. exists []. split; [exact H|constructor]. Qed.
 Lemma trans_shared_quiet x A B s s' :
   trans x [] A B s s' -> (forall c, In c (A ++ B) -> share_of s c = true) -> quiet x s s'.
 Proof.
-  intros [C TA TH TT TR TO] Hsh. constructor; auto.
+  intros [C TA TH TT TR TO TL] Hsh. constructor; auto.
   - intros c Hs. specialize (TA c Hs). assert (cnt A c = 0); [|lia].
     destruct (Nat.eq_dec (cnt A c) 0) as [|Hn]; [assumption|]. assert (Hin : In c A) by (apply cnt_pos_In; lia).
     rewrite Hsh in Hs by (apply in_or_app; auto). discriminate.
@@ -532,6 +537,7 @@ Proof.
   - intros c _. unfold LT. cbn [tasks set_req set_reqs]. lia.
   - intros r q Hx H. exists q. rewrite get_req_set_req_neq by congruence. split; [exact H|apply rkind_refl].
   - apply out_same. reflexivity.
+  - unfold set_req. cbn [reqs set_reqs]. apply upd_nth_length.
 Qed.
 
 (* replacing a checkout by a checkout *)
@@ -551,6 +557,7 @@ Proof.
       * rewrite (get_req_set_req_eq _ _ _ _ Hq). rewrite Hq in H. inversion H; subst. eexists. split; [reflexivity|cbn; eauto].
       * rewrite get_req_set_req_neq by exact Hn. exists q. split; [exact H|apply rkind_refl].
     + apply out_same. reflexivity.
+    + unfold set_req. cbn [reqs set_reqs]. apply upd_nth_length.
 Qed.
 
 Lemma trans_of_quiet x A B s s' : quiet x s s' -> trans x [] A B s s'.
@@ -631,7 +638,7 @@ Qed.
 Lemma trans_pool_push x n t c s : trans x [] [c] [] s (pool_push n t c s).
 Proof.
   unfold pool_push. destruct (share_of s c) eqn:Hsh.
-  - set (s1 := upd_tok t (set_marker false) s).
+  - set (s1 := upd_tok t (set_marker None) s).
     assert (Q1 : quiet x s s1) by (apply quiet_upd_tok; reflexivity).
     assert (Hs1 : share_of s1 c = true) by (rewrite (share_of_F2 _ _ c (t_conns _ _ _ _ _ _ Q1)); exact Hsh).
     rewrite Hs1. pose proof (walk_shared x t c true (p_waiting (get_tok s1 t)) s1 Hs1) as Q2.
@@ -660,10 +667,11 @@ Proof.
   - specialize (IH s). destruct (release_pending ws s). exact IH.
 Qed.
 
-Lemma quiet_pool_cancel x t s : quiet x s (pool_cancel t s).
+Lemma quiet_pool_cancel x t rid s : quiet x s (pool_cancel t rid s).
 Proof.
-  unfold pool_cancel. destruct (p_marker (get_tok s t)); [|apply quiet_refl].
-  set (s1 := upd_tok t (set_marker false) s). assert (Q1 : quiet x s s1) by (apply quiet_upd_tok; reflexivity).
+  unfold pool_cancel. destruct (p_marker (get_tok s t)) as [o|]; [|apply quiet_refl].
+  destruct (Nat.eqb o rid); [|apply quiet_refl].
+  set (s1 := upd_tok t (set_marker None) s). assert (Q1 : quiet x s s1) by (apply quiet_upd_tok; reflexivity).
   pose proof (quiet_release_pending x (p_waiting (get_tok s1 t)) s1) as Q2.
   destruct (release_pending (p_waiting (get_tok s1 t)) s1) as [rest s2]. cbn [snd] in Q2.
   eapply quiet_comp; [exact Q1|]. eapply quiet_comp; [exact Q2|]. apply quiet_upd_tok. reflexivity.
@@ -682,7 +690,7 @@ Qed.
 
 (* ---------------------------------------------------------------- pop *)
 Lemma cnt_rev l c : cnt (rev l) c = cnt l c.
-Proof. induction l as [|a l IH]; [reflexivity|]. cbn [rev]. rewrite cnt_app, IH, cnt_one, cnt_cons. lia. Qed.
+Proof. induction l as [|a l IH]; [reflexivity|]. cbn [rev]. rewrite cnt_app, IH. rewrite !cnt_cons, cnt_nil. lia. Qed.
 
 Lemma pop_loop_spec x thr rl : forall s r rest s', pop_loop thr rl s = (r, rest, s') ->
   quiet x s s' /\ forall c, cnt (map fst rest) c + cnt (oconn r) c <= cnt (map fst rl) c.
@@ -692,7 +700,7 @@ Proof.
   - destruct (match thr with Some y => (a <? y)%N | None => false end).
     + inversion H; subst. split; [eapply quiet_comp; [apply quiet_drop_conn|apply quiet_drop_all]|intros c; cbn; lia].
     + destruct (is_open s c0).
-      * inversion H; subst. split; [apply quiet_refl|]. intros c. cbn [map fst oconn]. rewrite cnt_cons, cnt_one. lia.
+      * inversion H; subst. split; [apply quiet_refl|]. intros c. cbn [map fst oconn]. rewrite !cnt_cons, cnt_nil. lia.
       * apply IH in H. destruct H as [Q Hc]. split; [eapply quiet_comp; [apply quiet_drop_conn|exact Q]|].
         intros c. specialize (Hc c). cbn [map]. rewrite cnt_cons. lia.
 Qed.
@@ -715,4 +723,38 @@ Proof.
     + apply out_same. reflexivity.
   - rewrite (upd_nth_none _ _ _ E). replace (set_toks (toks s) s) with s by (destruct s; reflexivity).
     apply Hid. intros c. specialize (Hf c). rewrite nth_overflow in Hf by (apply nth_error_None; exact E). cbn in Hf. lia.
+Qed.
+
+Lemma toks_pop_loop' thr rl : forall s, toks (snd (pop_loop thr rl s)) = toks s.
+Proof.
+  assert (Hd : forall c s, toks (drop_conn c s) = toks s).
+  { intros c s. unfold drop_conn. destruct (get_conn s c); [|reflexivity]. destruct (Nat.eqb _ 0); reflexivity. }
+  assert (Ha : forall l s, toks (drop_all l s) = toks s).
+  { induction l as [|[c a] l IH]; intros s; cbn [drop_all]; [reflexivity|]. rewrite IH. apply Hd. }
+  induction rl as [|[c a] rl IH]; intros s; cbn [pop_loop]; [reflexivity|].
+  destruct (match thr with Some y => (a <? y)%N | None => false end); cbn [snd]; [rewrite Ha; apply Hd|].
+  destruct (is_open s c); cbn [snd]; [reflexivity|]. rewrite IH. apply Hd.
+Qed.
+
+Lemma trans_pool_pop x to t s r s' : pool_pop to t s = (r, s') -> trans x (oconn r) [] [] s s'.
+Proof.
+  unfold pool_pop. intros H.
+  pose proof (toks_pop_loop' (expiry_threshold to (now s)) (rev (p_idle (get_tok s t))) s) as Ht.
+  destruct (pop_loop (expiry_threshold to (now s)) (rev (p_idle (get_tok s t))) s) as [[r0 rest] s1] eqn:Hl.
+  inversion H; subst. clear H. cbn [snd] in Ht.
+  destruct (pop_loop_spec x _ _ _ _ _ _ Hl) as [Q Hc].
+  eapply quiet_trans; [exact Q|]. apply trans_upd_tok_R.
+  assert (Hg : get_tok s1 t = get_tok s t) by (destruct t; cbn [get_tok]; [reflexivity|rewrite Ht; reflexivity]).
+  rewrite Hg. intros c. specialize (Hc c). unfold tokA. cbn [set_idle p_idle].
+  rewrite map_rev, cnt_rev in *. exact Hc.
+Qed.
+
+Lemma register_spec x cfg t c s : fst (fst (register cfg t c s)) = c /\ quiet x s (snd (register cfg t c s)).
+Proof.
+  unfold register. destruct (g_pool cfg && negb (Nat.eqb t 0)); [|split; [reflexivity|apply quiet_refl]].
+  destruct (share_of s c) eqn:Hs; cbn [fst snd]; split; try reflexivity; try apply quiet_refl.
+  destruct (is_open s c); [|apply quiet_refl].
+  assert (Q1 := quiet_clone_conn x c s).
+  eapply quiet_comp; [exact Q1|]. eapply trans_shared_quiet; [apply (trans_pool_push x (g_max_idle cfg) t c)|].
+  intros c' [<-|[]]. rewrite (share_of_F2 _ _ c (t_conns _ _ _ _ _ _ Q1)). exact Hs.
 Qed.
